@@ -156,6 +156,17 @@ class C13(Property):
         "Flatland.C13.Proofs.find_fq_unnamed",
         "Flatland.C13.Proofs.tokenize_slash2",
         "Flatland.C13.Proofs.C13_empty_name_fails_top_partial",
+        # p2 (Proofs/C13Empty, Proofs/Lemmas/PathScanEmpty): empty path steps at any depth; find_fq_addressable,
+        # find_fq_iff, C13_key_mismatch_fails above are now the statements WITHOUT namedFrom
+        "Flatland.Path.Lemmas.tokenize_sufJoin",
+        "Flatland.C13.Proofs.tokenize_fqName_empty",
+        "Flatland.C13.Proofs.tokenize_fqName_of_empty",
+        "Flatland.C13.Proofs.find_fq_empty",
+        "Flatland.C13.Proofs.find_fq_iff_pathOK",
+        "Flatland.C13.Proofs.C13_empty_name_fails",
+        "Flatland.C13.Proofs.find_fq_addressable_named",
+        "Flatland.C13.Proofs.find_fq_iff_named",
+        "Flatland.C13.Proofs.C13_key_mismatch_fails_named",
     ]
     extra_proof_modules = ["Proofs.C13Unspellable"]
     generated_obligations = []
